@@ -1032,9 +1032,11 @@ class ComputeGraph(MultiDiGraph):
             lambda e: isinstance(e, Derivative) and e.expr.func.__name__ == 'identity',
             lambda e: sp.Integer(1)
         )
+        # (the Fortran backend registers its sigmoid helper under a numbered name, fsigmoid_<k>)
         expr = expr.replace(
-            lambda e: isinstance(e, Derivative) and e.expr.func.__name__ == 'sigmoid',
-            lambda e: (lambda s: s * (1 - s))(Function('sigmoid')(e.expr.args[0]))
+            lambda e: isinstance(e, Derivative) and (e.expr.func.__name__ == 'sigmoid'
+                                                     or e.expr.func.__name__.startswith('fsigmoid')),
+            lambda e: (lambda s: s * (1 - s))(Function(e.expr.func.__name__)(e.expr.args[0]))
         )
         expr = expr.replace(
             # (`absv` reaches this point under the backend's call name `abs`)
